@@ -86,6 +86,8 @@ pub trait Walker: Visitor {
     }
 
     fn walk_expression(&mut self, expr: &mut Expression) {
+        #[cfg(ucg_verif)]
+        crate::verif::tick("ast::walk");
         self.visit_expression(expr);
         match expr {
             Expression::Call(def) => {
